@@ -229,14 +229,23 @@ def union_table(fb):
                 ev.append(("define", a[0], a[1], a[2]))
                 return []
             return NOT
-        selfv = [UNKNOWN] * 8
+        fields = [x["name"] for x in fb.adt("interpreter::interpreter::Interpreter")["variants"][0]["fields"]]
+        selfv = [UNKNOWN for _ in fields]
+        # the declaration may sit in the body of a library that is itself being loaded: its in-progress mark is there before and
+        # has to be there after
+        outer = Val("outer-library-being-loaded")
+        marks = Map()
+        marks.d[machine.key_of(outer)] = (outer, True)
+        if "imported_library" in fields:
+            selfv[fields.index("imported_library")] = marks
         mc = Machine(fb, intercept=icpt, max_visits=8)
         try:
             res = mc.run(f, [selfv, [list(sets)], env])
         except (absint.Stuck, absint.Loop) as e:
             rows.append((scenario, {"stuck": str(e)}))
             continue
-        rows.append((scenario, {"result": res, "events": ev, "env": env, "vals": (A, B, C), "sets": sets, "error": E}))
+        rows.append((scenario, {"result": res, "events": ev, "env": env, "vals": (A, B, C), "sets": sets, "error": E,
+                                "outer_mark_kept": machine.key_of(outer) in marks.d and len(marks.d) == 1}))
     return f, rows
 
 
@@ -270,6 +279,27 @@ def rule_union(ctx, rule):
         ctx.oblige(good)
         if not good:
             ctx.report(rule, key, msg, where_of(f))
+    return decided
+
+
+def rule_outer_marks(ctx, rule):
+    """an import declaration evaluated while an enclosing library is being loaded leaves that library's in-progress mark alone"""
+    fb = ctx.fb()
+    from .ctx import where_of
+    f, rows = union_table(fb)
+    decided = 0
+    for scenario, d in rows:
+        key = "eval_import/%s/outer-mark" % scenario
+        if "stuck" in d:
+            ctx.undecided(rule, key, "cannot follow eval_import (%s)" % d["stuck"], where_of(f))
+            continue
+        decided += 1
+        ctx.inst(rule, key, {"kept": d["outer_mark_kept"]})
+        ctx.oblige(d["outer_mark_kept"])
+        if not d["outer_mark_kept"]:
+            ctx.report(rule, key, "an import declaration (%s) evaluated inside a library that is being loaded changes the set of in-progress "
+                       "marks: the enclosing library's mark is gone, so a cycle through it is no longer detected and loading recurses without "
+                       "end" % scenario, where_of(f))
     return decided
 
 
